@@ -15,6 +15,11 @@ API
     make_rdata(t, rdclass, values)   -> dns.rdata.Rdata   (raises what the constructor raises)
     values_of(t, rd)                 -> abstract values read back from the object's attributes
     is_schema(t)                     -> bool (values are one entry per wire field, wire order)
+    corners(t)                       -> [(values, origin)] deterministic boundary records (every field at
+                                        0 / max / high bit / carry boundaries / empty / maximal / zero rows ...)
+    dec_corners(t)                   -> [octets] accepted-but-not-canonical RDATA (where a codec normalises)
+    names_in(t, values)              -> the name values inside an abstract value
+    impl_class(t)                    -> the implementing class, imported by module path
 
 Abstract values (JSON-able through lib.jsonable, and directly convertible to Coq `obs`):
     integer field -> int          octet field -> bytes        name -> list of labels (bytes);
